@@ -10,6 +10,7 @@ use std::panic::{AssertUnwindSafe, catch_unwind};
 
 mod alpha_ops;
 mod delta_ops;
+mod syn_ops;
 
 pub fn unescape(field: &str) -> Vec<u8>
 {
@@ -85,7 +86,8 @@ fn dispatch(op: &str, fields: &[&str]) -> String
 	{
 		"alpha" => alpha_ops::alpha(fields),
 		"lexa" => alpha_ops::lexa(fields),
-		"rebuild" => alpha_ops::rebuild(fields),
+		"rebuild" => syn_ops::rebuild(fields),
+		"alphaast" => syn_ops::alphaast(fields),
 		"diag" => alpha_ops::diag(fields),
 		"resolved" => alpha_ops::resolved(fields),
 		"lexd" => delta_ops::lexd(fields),
